@@ -434,6 +434,7 @@ func runC15(c *Ctx) {
 	// ---- (b) decoder side ----
 	cases := c15DecoderCases(c)
 	ParallelFor(len(cases), c.Work, func(i int) { c15DecOne(c, cases[i], i < 2 || i == len(cases)-1) })
+	runOptHuff(c, "C15")
 	runDctCorr(c, "C15")
 }
 
@@ -460,6 +461,9 @@ func c15EncOne(c *Ctx, k c11Case, sample bool) {
 		return
 	}
 	in["stream"] = clipBytes(stream)
+	if acMaxLen16(stream) {
+		c.R.Case(key+":deep", false, "c15.enc.ac_table_uses_16_bit_codes")
+	}
 	c.R.Oracle("c15_imagejpeg_accepts")
 	ref, err := independentDecode(stream)
 	if err != nil {
